@@ -171,6 +171,22 @@ impl G<'_> {
                     "./f0 2>/dev/null; echo \"st=$?\"; ./d1 2>/dev/null; echo \"st=$?\"; ./missing 2>/dev/null; echo \"st=$?\"; f0/x 2>/dev/null; echo \"st=$?\"",
                     "(exec ./f0) 2>/dev/null; echo \"st=$?\"; (exec ./d1) 2>/dev/null; echo \"st=$?\"; (exec ./missing) 2>/dev/null; echo \"st=$?\"",
                     "command -v ./f0; echo \"st=$?\"; command -v ./d1; echo \"st=$?\"; command -v ./missing; echo \"st=$?\"",
+                    // descriptors shared with children: one offset, one set of flags
+                    "exec 7<f0; (read -r a <&7; echo \"a=$a\"); read -r b <&7; echo \"b=$b\"; exec 7<&-",
+                    "exec 7>>shared.out; (echo child >&7); echo parent >&7; exec 7>&-; relay <shared.out",
+                    "exec 7>shared2.out; echo one >&7; (exec 7>&-; echo two >&7) 2>/dev/null; echo \"st=$?\"; echo three >&7; exec 7>&-; relay <shared2.out",
+                    "exec 7<f0; read -r a <&7; x=$(read -r b <&7; echo \"b=$b\"); echo \"$x\"; read -r c <&7; echo \"a=$a c=$c\"; exec 7<&-",
+                    "{ read -r a; (read -r b; echo \"b=$b\"); read -r c; echo \"a=$a c=$c\"; } <f0",
+                    "echo first >trunc.out; exec 7<trunc.out; : >trunc.out; read -r a <&7; echo \"st=$? a=$a\"; exec 7<&-",
+                    "exec 7<>rw.out; echo abc >&7; read -r a <&7; echo \"st=$? a=$a\"; exec 7>&-; relay <rw.out",
+                    // CDPATH, cd through a file, unset HOME, pwd after cd
+                    "(CDPATH=$HERE/d1; cd d2; echo \"st=$? $PWD\"; cd \"$HERE\")",
+                    "(CDPATH=$HERE/missing:$HERE; cd d1; echo \"st=$? ${PWD#$HERE}\")",
+                    "(CDPATH=:$HERE/d1; cd d2 2>/dev/null; echo \"st=$? ${PWD#$HERE}\")",
+                    "(unset HOME; cd 2>/dev/null; echo \"st=$? ${PWD#$HERE}\")",
+                    "(HOME=$HERE/d1; cd; echo \"st=$? ${PWD#$HERE}\"; cd -; echo \"st=$? ${PWD#$HERE}\") | relay",
+                    "(cd d1/d2; cd ../..; echo \"st=$? ${PWD#$HERE}\"; cd d1/../f0 2>/dev/null; echo \"st=$? ${PWD#$HERE}\")",
+                    "(cd d1; echo x >../up.out; relay <../up.out; echo *; echo ../f?)",
                     // a child that has been waited for no longer exists: no signal reaches it
                     "(exit 3) & p=$!; wait; kill -s TERM $p 2>/dev/null; echo \"kill st=$?\"; wait $p; echo \"st=$?\"",
                     "(exit 4) & p=$!; wait $p; echo \"st=$?\"; kill -s 0 $p 2>/dev/null; echo \"kill0 st=$?\"; kill -s CONT $p 2>/dev/null; echo \"cont st=$?\"",
